@@ -337,6 +337,12 @@ def gen_groups(rng):
     if par:
         G0['in'] = [d['n'] for d in g0]
         G0['out'] = [d['n'] for d in g0]
+    elif rng.random() < 0.08:
+        # two entry machines in front of one exit device; the second entry machine is named only in input_override (the
+        # documentation adds such devices to the group), the exit is the last LISTED device
+        a1, a2 = gdev('G0', 0, []), gdev('G0', 1, [])
+        b = {'k': 'H', 'n': 'G0d2', 'c': rng.choice(GRID), 'up': ['G0d0', 'G0d1']}
+        G0 = {'n': 'G0', 'devs': [a1, a2, b], 'in': ['G0d0', 'G0d1'], 'listed': ['G0d0', 'G0d2']}
     groups.append(G0)
     if rng.random() < 0.5:
         g1 = []
